@@ -9,7 +9,8 @@ LEVEL = 'exploration'
 RULE = ('Hypothesis-generated (table, join table, header, SELECT query) cases from the select/where grammar (fields in 5 spellings, '
         'expressions, literals, *, a.*, b.*, * EXCEPT, one UNNEST, optional WHERE and JOIN); oracle = reference interpreter '
         '(exact record-list equality incl. value types) + freshness of output lists. Non-trivial = >=2 input records and '
-        '(WHERE keeps some and drops some pairs, or a star/EXCEPT/UNNEST item, or a ragged table); distinct = distinct case digests.')
+        '(WHERE keeps some and drops some pairs, or a star/EXCEPT/UNNEST item, or a ragged table); distinct = distinct case digests.'
+        ' Later additions: f-string items whose variables occur only inside the literal, raw TAB / double-space literals, `UNNEST (x)` with a gap, dict literals, keyword-argument calls in select items, blanks around the commas of the select list, join tables with zero-field records, 2600-record deterministic cases.')
 ASSUMPTIONS = ['expression semantics are shared with the oracle (both sides call Python eval on the same expression text)',
                'expressions are generated to be evaluable on their table (no failing evaluations; those are C14)',
                'EXCEPT only as `* EXCEPT cols` (the documented form)']
